@@ -20,13 +20,13 @@ static int expect_throw; void cv_on_throw(var obj) { ASSERT(obj == OutOfMemoryEr
 /* the character stream */
 static char STREAM[4 * LS + 8]; static int cv_wpos;
 int print_to_with(var out, int pos, const char* fmt, var args) {
-  __CPROVER_assert(pos == cv_wpos, "show writes sequentially");
+  __CPROVER_assert(pos == cv_wpos, "harness: show writes sequentially");
   if (fmt[0] == '%' && fmt[1] == 'c' && fmt[2] == 0) { STREAM[cv_wpos++] = (char)c_int(get(args, NULL)); }
-  else { for (int i = 0; fmt[i] != 0; i++) { __CPROVER_assert(fmt[i] != '%', "literal text only"); STREAM[cv_wpos++] = fmt[i]; } }
+  else { for (int i = 0; fmt[i] != 0; i++) { __CPROVER_assert(fmt[i] != '%', "harness: literal text only"); STREAM[cv_wpos++] = fmt[i]; } }
   return cv_wpos;
 }
 int scan_from_with(var input, int pos, const char* fmt, var args) {
-  __CPROVER_assert(fmt[0] == '%' && fmt[1] == 'c' && fmt[2] == 0, "look reads character by character");
+  __CPROVER_assert(fmt[0] == '%' && fmt[1] == 'c' && fmt[2] == 0, "harness: look reads character by character");
   __CPROVER_assert(pos >= 0 && pos < cv_wpos, "[C15] look never reads past the text that show wrote");
   ((struct Int*)get(args, NULL))->val = STREAM[pos];
   return pos + 1;
